@@ -46,4 +46,22 @@ CHECKS = {
         "note": "Trusts the restatement of the Neuroglancer spec in DESIGN.md "
                 "App. A.1/A.3; grids beyond the lattice are not covered.",
     },
+    "C20": {
+        "engine": "E-INPUT", "level": "exploration",
+        "technique": "bounded exhaustive enumeration (every integer to 2^22 "
+                     "/ 2^26 + boundary windows to 2^70; dataset product) "
+                     "with exact integer parse-back oracle",
+        "text": "readable_count is evaluated on every integer below 2^22 "
+                "(quick) / 2^26 (thorough) and on windows around every "
+                "power-of-1024 boundary up to 2^70; each result is parsed "
+                "back with integer arithmetic (within half a unit of the "
+                "last digit, >= 2 significant digits, <= 6 characters up to "
+                "2^60). scale-stats is compared with the chunk files / "
+                "shard-index entries and decoded byte sizes of datasets "
+                "produced by the real command sequence over a product of "
+                "sizes x types x channels x chunk targets x storage options.",
+        "note": "Counts are integers; the dataset product is small volumes "
+                "(<= 33 voxels per axis); chunk files are recognised by the "
+                "documented names only.",
+    },
 }
